@@ -451,7 +451,10 @@ pub fn run(tier: Tier) -> i32 {
     let shards = 32;
     let mut tally = ctx.par(shards, |s| enumerate(seed, s, shards));
     let h = ctx.par(16, |s| histories(seed, s, tier.n(600, 20_000)));
+    let am = ctx.par(16, |s| crate::props::c13::around_midnight(seed, s, tier.n(400, 15_000), "C14"));
     tally.merge(h);
+    tally.merge(am);
+    ctx.gate("second request around UTC midnight with the first one's Credential text: refused before the provider is asked", tally.get("midnight/second_with_the_other_days_scope_refused_by_the_scope_rule"), tier.n(2000, 80_000));
     if let Err(e) = &pre {
         tally.inconclusive.push(e.clone());
     }
